@@ -153,6 +153,19 @@ theorem C01_transparent (P : Pipe) (hd : P.Dual) (t : List (Ev Val)) (ht : WF t)
   have := muxItems_liftOut k (P.loc.outL xs)
   simpa [muxItems] using this
 
+/-- **keyed side for nested pipelines**: let `P` be any nested pipeline (splitters around inner
+pipelines, `tee_map` around branches, any depth) and `t` any clean well-formed multiplexed input in
+which group `k` has the items `xs`.  The items the index-addressed implementation delivers for `k`
+are exactly the items of the pipeline's local meaning on `xs` alone — the other groups, their
+interleaving and the reuse of slot indices do not matter. -/
+theorem C01_keyed_nested (P : Pipe) (h : P.Nested) (t : List (Ev Val)) (ht : WF t) (hc : CleanTr t) (k : Key) (xs : List Val)
+    (hk : t.filter (ofKey k) = [.create k] ++ xs.map (.next k) ++ [.done k]) :
+    muxItems k (P.mux.run t).flatten = items (P.loc.outL xs) := by
+  rw [← muxItems_filter, C02_confinement_nested P h t ht hc k, hk, muxItems_filter, C01_mux_lifetime]
+  simp [muxItems, muxItems_liftOut]
+  have := muxItems_liftOut k (P.loc.outL xs)
+  simpa [muxItems] using this
+
 /-! ### the catalogue: every builder of Derived.lean yields dual stages / pipelines -/
 
 theorem dual_of_sim {L : LocalOp Val Val} {Pl : PlainOp Val Val} (S : PrimSim Pl L) : (Stage.prim L (some Pl)).Dual :=
